@@ -138,38 +138,39 @@ theorem grows_devWrite (idx : Nat) : Grows (devWrite idx) := by
 
 theorem grows_writeBack : Grows writeBack := by
   intro s
-  unfold writeBack
-  cases s.cache.tag with
-  | none => exact ⟨[], rfl⟩
-  | some idx => exact grows_devWrite idx s
+  cases ht : s.cache.tag with
+  | none => rw [writeBack_none s ht]; exact ⟨[], rfl⟩
+  | some idx =>
+    obtain ⟨n1, h1⟩ := grows_devWrite idx s
+    rcases writeBack_cases s idx ht with ⟨s1, hd, hw⟩ | ⟨s1, hd, hw⟩ <;> rw [hw] <;> rw [hd] at h1 <;> exact ⟨n1, h1⟩
 
 theorem grows_writeBackWithDuplicate (dup : Nat) : Grows (writeBackWithDuplicate dup) := by
   intro s
-  unfold writeBackWithDuplicate
-  cases s.cache.tag with
-  | none => exact ⟨[], rfl⟩
+  cases ht : s.cache.tag with
+  | none => rw [writeBackWithDuplicate_none dup s ht]; exact ⟨[], rfl⟩
   | some idx =>
     obtain ⟨n1, h1⟩ := grows_devWrite idx s
-    simp only
-    rcases hd : devWrite idx s with ⟨r, s1⟩
-    rw [hd] at h1
-    cases r with
-    | ok u =>
-      obtain ⟨n2, h2⟩ := grows_devWrite dup s1
-      exact ⟨n2 ++ n1, by rw [h2, h1, List.append_assoc]⟩
-    | err e => exact ⟨n1, h1⟩
-    | panic m => exact ⟨n1, h1⟩
-    | diverged => exact ⟨n1, h1⟩
+    rcases writeBackDup_cases dup s idx ht with ⟨s1, s2, hd1, hd2, hw⟩ | ⟨s1, s2, hd1, hd2, hw⟩ | ⟨s1, hd1, hw⟩
+    · obtain ⟨n2, h2⟩ := grows_devWrite dup s1
+      rw [hw]; rw [hd1] at h1; rw [hd2] at h2
+      exact ⟨n2 ++ n1, by show s2.dev.wlog = _; rw [h2, h1, List.append_assoc]⟩
+    · obtain ⟨n2, h2⟩ := grows_devWrite dup s1
+      rw [hw]; rw [hd1] at h1; rw [hd2] at h2
+      exact ⟨n2 ++ n1, by show s2.dev.wlog = _; rw [h2, h1, List.append_assoc]⟩
+    · rw [hw]; rw [hd1] at h1; exact ⟨n1, h1⟩
 
 /-- A successful write-back appended exactly one entry. -/
 theorem writeBack_ok_wlog (s : FS) (h : (writeBack s).1 = .ok ()) :
     ∃ x, (writeBack s).2.dev.wlog = x :: s.dev.wlog := by
-  unfold writeBack at h ⊢
   cases ht : s.cache.tag with
-  | none => rw [ht] at h; cases h
+  | none => rw [writeBack_none s ht] at h; cases h
   | some idx =>
-    rw [ht] at h
-    exact ⟨_, (devWrite_ok idx s h).2⟩
+    rcases writeBack_cases s idx ht with ⟨s1, hd, hw⟩ | ⟨s1, hd, hw⟩
+    · rw [hw]
+      have := (devWrite_ok idx s (by rw [hd])).2
+      rw [hd] at this
+      exact ⟨_, this⟩
+    · rw [hw] at h; cases h
 
 theorem grows_updateFat (c val : Nat) : Grows (updateFat c val) := by
   unfold updateFat
